@@ -177,6 +177,7 @@ type Checker struct {
 	S *Spec
 	// Seen: what happened, for non-triviality rules.
 	Failed, Overwrites, Removals, SharedRemovals, DupIDs, DenyHits int
+	Reused     int  // successful re-registrations of the very same node object
 	LastFailed bool // the most recent call failed according to the specification
 	rmpipeNoop bool
 }
@@ -219,6 +220,9 @@ func (c *Checker) apply(op Op) string {
 		r := x.Apply(op)
 		inst := x.All[len(x.All)-1]
 		want := s.RegisterNode(op.N, inst, op.Pol)
+		if op.Reuse && existed && want {
+			c.Reused++
+		}
 		if want && existed {
 			c.Overwrites++
 		}
@@ -323,8 +327,8 @@ func (c *Checker) apply(op Op) string {
 		x.Apply(op)
 	}
 	for _, n := range x.All {
-		if n.Closes.Load() > 1 {
-			return fmt.Sprintf("node instance %s was closed %d times", n.Name, n.Closes.Load())
+		if c := x.Closes(n); c > 1 {
+			return fmt.Sprintf("node instance %s was closed %d times (1000 = the node wrapped by a Closer wrapper was closed directly)", n.Name, c)
 		}
 	}
 	return ""
@@ -343,8 +347,13 @@ func union(a, b map[string]int) map[string]bool {
 
 func closesByID(x *Exec) map[string]int {
 	m := map[string]int{}
+	seen := map[*nodes.N]bool{}
 	for _, n := range x.All {
-		m[n.ID] += int(n.Closes.Load())
+		if seen[n] {
+			continue // the same object registered again
+		}
+		seen[n] = true
+		m[n.ID] += x.Closes(n)
 	}
 	return m
 }
